@@ -40,7 +40,7 @@ ASSUMPTIONS = ASSUME_COMMON + [
 ]
 TIERS = {
     "quick": {"shards": 16, "cases": 110, "timeout": 600},
-    "thorough": {"shards": 16, "cases": 3500, "timeout": 7200},
+    "thorough": {"shards": 16, "cases": 7000, "timeout": 7200},
 }
 FLOORS = {
     "quick": {
